@@ -182,12 +182,18 @@ def execRun (cf : Conf) (g : G) (r : Nat) : StepRes :=
       { g := { rs := upd g.rs r a.1, bst := b.1 }, completed := runDone rc a.1, failedBuilding := false,
         evs := bevs ++ a.2 }
 
-/-- `has_same_executable` (run_id.py:98): `executable` is `None` until the
-command line has been built, so only runs that were started before compare equal -/
-def sameExe (cf : Conf) (g : G) (r q : Nat) : Bool :=
+/-- `has_same_executable` (run_id.py:99-106, repaired): the runs are compared by
+the path and executable configured for their executors, whether or not they
+have been started -/
+def sameExe (cf : Conf) (_g : G) (r q : Nat) : Bool :=
+  (cf.run q).exe == (cf.run r).exe
+
+/-- the pinned tree compared `RunId.executable`, which is `None` until the
+command line of a run has been built: only runs started before compared equal -/
+def sameExePinned (cf : Conf) (g : G) (r q : Nat) : Bool :=
   (g.rs q).cmdBuilt && (cf.run q).exe == (cf.run r).exe
 
-/-- `without_missing_binaries` (executor.py:459-472): runs of the task list with
+/-- `without_missing_binaries` (executor.py:492-506): runs of the task list with
 the same executable are marked to fail immediately and removed -/
 def withoutMissing (cf : Conf) (r : Nat) : G → List Nat → G × List Nat
   | g, [] => (g, [])
